@@ -23,6 +23,9 @@ func ErrClass(err error) string {
 	if i := strings.Index(s, "\n"); i >= 0 {
 		s = s[:i]
 	}
+	if i := strings.Index(s, "compressed stream:"); i >= 0 {
+		s = s[:i+len("compressed stream")] // the offending byte varies from case to case
+	}
 	s = digitsRe.ReplaceAllString(s, "N")
 	s = strings.Map(func(r rune) rune {
 		if r < 0x20 || r > 0x7e {
@@ -47,7 +50,7 @@ type dirTruth struct {
 // message delivered exactly once and intact and reported sent exactly once, rejected ones reported
 // sent(rejected) without transfer, deferred ones reported deferred and still pending, both results
 // nil, statistics exact, connection closed.
-func CheckCompleted(o *vrt.Obs, sc *Scenario, res Result, a, b *mem.Station, events []mem.Event) {
+func CheckCompleted(o *vrt.Obs, sc *Scenario, res Result, pendingA, pendingB []string, events []mem.Event) {
 	if res.A.Panic != nil {
 		o.Violations = append(o.Violations, vrt.PanicViolation(res.A.Panic, []byte(res.A.Stack)))
 	}
@@ -84,11 +87,11 @@ func CheckCompleted(o *vrt.Obs, sc *Scenario, res Result, a, b *mem.Station, eve
 	for _, d := range []dirTruth{{"A", "B", sc.MsgsA, res.A, res.B}, {"B", "A", sc.MsgsB, res.B, res.A}} {
 		var wantSent []string
 		pendingAfter := map[string]bool{}
-		st := a
+		pend := pendingA
 		if d.sender == "B" {
-			st = b
+			pend = pendingB
 		}
-		for _, m := range st.Pending() {
+		for _, m := range pend {
 			pendingAfter[m] = true
 		}
 		for _, m := range d.msgs {
@@ -115,7 +118,7 @@ func CheckCompleted(o *vrt.Obs, sc *Scenario, res Result, a, b *mem.Station, eve
 					o.Violate("setsent-count", "%s: SetSent called %d times", desc, len(ss))
 				case ss[0].Flag:
 					o.Violate("setsent-flag", "%s: reported as rejected although it was transferred", desc)
-				case len(pi) == 1 && ss[0].Seq < pi[0].Seq:
+				case len(pi) == 1 && ss[0].Seq >= 0 && pi[0].Seq >= 0 && ss[0].Seq < pi[0].Seq:
 					o.Violate("setsent-before-delivery", "%s: reported sent before the peer's handler had received it", desc)
 				}
 				if len(sd) != 0 {
